@@ -1016,4 +1016,120 @@ theorem setObjective_object_spec {h : Heap} {d m q v l o : Nat} {cs : List Nat} 
     (by rw [cppOf_eq j1]; exact hcells cm j5 a1.1 a1.2) (by rw [varsOf_eq j1]; exact hcells vm j7 a2.1 a2.2)).2.1
 
 
+/-- a model and a CQM sharing no cell -/
+def MSep (h : Heap) (d m : Nat) : Prop :=
+  CGood h d ∧ Born 0 h m ∧ m ∉ cfp h d ∧ cppOf h m ∉ cfp h d ∧ varsOf h m ∉ cfp h d
+
+/-- one in-place edit of the CQM keeps the pair separate and the model reading the same -/
+theorem msep_cedit {h : Heap} {d m : Nat} (s : MSep h d m) (e : CEdit) : MSep (e.run h d) d m ∧ obs (e.run h d) m = obs h m := by
+  obtain ⟨hg, hm, x1, x2, x3⟩ := s
+  obtain ⟨n, g', fr, incl⟩ := cedit_step hg e
+  obtain ⟨c, v, k1, k2, k3, k4, k5, k6, k7, k8, k9, k10⟩ := hm
+  have ec := cppOf_eq k1
+  have ev := varsOf_eq k1
+  rw [ec] at x2
+  rw [ev] at x3
+  have hm' : Born 0 h m := ⟨c, v, k1, k2, k3, k4, k5, k6, k7, k8, k9, k10⟩
+  obtain ⟨b1, b2, b3, b4⟩ := hm'.of_cells n (fr m k3 x1) (by rw [ec]; exact fr c k5 x2) (by rw [ev]; exact fr v k7 x3)
+  have nin : ∀ x, x < h.next → x ∉ cfp h d → x ∉ cfp (e.run h d) d := fun x hx hnx hx' => by
+    rcases incl x hx' with h1 | h1
+    · exact hnx h1
+    · omega
+  exact ⟨⟨g', b1, nin m k3 x1, by rw [b3, ec]; exact nin c k5 x2, by rw [b4, ev]; exact nin v k7 x3⟩, b2⟩
+
+theorem msep_cedits {h : Heap} {d m : Nat} (s : MSep h d m) (ces : List CEdit) :
+    MSep (ces.foldl (fun acc e => e.run acc d) h) d m ∧ obs (ces.foldl (fun acc e => e.run acc d) h) m = obs h m := by
+  induction ces generalizing h with
+  | nil => exact ⟨s, rfl⟩
+  | cons e t ih =>
+    obtain ⟨s', o'⟩ := msep_cedit s e
+    obtain ⟨s'', o''⟩ := ih s'
+    exact ⟨s'', o''.trans o'⟩
+
+/-- a separate pair stays independent along any history on either side -/
+theorem msep_histories {h : Heap} {d m : Nat} (s : MSep h d m) (es : List Edit) (ces : List CEdit) :
+    cobs (es.foldl (fun acc e => e.run acc m) h) d = cobs h d ∧ obs (ces.foldl (fun acc e => e.run acc d) h) m = obs h m := by
+  refine ⟨?_, (msep_cedits s ces).2⟩
+  obtain ⟨hg, hm, x1, x2, x3⟩ := s
+  refine (hg.of_cells (Nat.le_of_eq (edits_next _ m es).symm) (fun x hx => edits_write_own_cells hm es x ?_ ?_)).2.2
+  · intro e; exact x2 (e ▸ hx)
+  · intro e; exact x3 (e ▸ hx)
+
+/-- `set_objective(model)` (array-backed) IS two in-place edits of the CQM whose arguments are the source's contents: the `add_variable`s,
+    then the objective cell is overwritten -/
+theorem setObjective_as_edits {h : Heap} {d m : Nat} (s : MSep h d m) (remap : List Rat → List Rat) (m' : Merge) :
+    setObjective h d m false remap m' =
+      [CEdit.vars (fun lv => m'.w lv (labelsAt h (varsOf h m))), CEdit.objective (fun _ => remap (coeffsAt h (cppOf h m)))].foldl
+        (fun acc e => e.run acc d) h := by
+  obtain ⟨_, _, x1, x2, _⟩ := s
+  have hv : varsOf h d ∈ cfp h d := by simp [cfp]
+  have n1 : m ≠ varsOf h d := fun e => x1 (e ▸ hv)
+  have n2 : cppOf h m ≠ varsOf h d := fun e => x2 (e ▸ hv)
+  have e1 : ∀ X, cppOf (store h (varsOf h d) X) m = cppOf h m := fun X => by simp [cppOf, store_cell_other _ _ _ _ n1]
+  have e2 : ∀ X, coeffsAt (store h (varsOf h d) X) (cppOf h m) = coeffsAt h (cppOf h m) := fun X =>
+    coeffsAt_congr (store_cell_other _ _ _ _ n2)
+  simp only [setObjective, List.foldl, CEdit.run, Bool.false_eq_true, if_false, e1, e2]
+
+/-- **`set_objective(model)` end to end**: the model reads as before; afterwards any history of in-place edits of the model leaves the CQM
+    reading the same and any history of in-place edits of the CQM leaves the model reading the same -/
+theorem setObjective_then_histories {h : Heap} {d m : Nat} (s : MSep h d m) (remap : List Rat → List Rat) (m' : Merge)
+    (es : List Edit) (ces : List CEdit) :
+    MSep (setObjective h d m false remap m') d m ∧ obs (setObjective h d m false remap m') m = obs h m ∧
+    cobs (es.foldl (fun acc e => e.run acc m) (setObjective h d m false remap m')) d = cobs (setObjective h d m false remap m') d ∧
+    obs (ces.foldl (fun acc e => e.run acc d) (setObjective h d m false remap m')) m = obs h m := by
+  rw [setObjective_as_edits s]
+  obtain ⟨s', o'⟩ := msep_cedits s [CEdit.vars (fun lv => m'.w lv (labelsAt h (varsOf h m))), CEdit.objective (fun _ => remap (coeffsAt h (cppOf h m)))]
+  obtain ⟨h1, h2⟩ := msep_histories s' es ces
+  exact ⟨s', o', h1, h2.trans o'⟩
+
+
+theorem msep_shape {h : Heap} {d m : Nat} (s : MSep h d m) :
+    ∃ q v l o cs, CShape h d q v l o cs ∧ ∀ x ∈ [m, cppOf h m, varsOf h m], x ≠ d ∧ x ≠ q ∧ x ≠ v ∧ x ≠ l := by
+  obtain ⟨⟨q, v, l, o, cs, hw, nd⟩, _, x1, x2, x3⟩ := s
+  rw [cfp_eq hw] at x1 x2 x3
+  obtain ⟨d1, d2, d3, d4, d5, d6, _, _⟩ := hw
+  simp only [List.nodup_cons, List.mem_cons, not_or] at nd x1 x2 x3
+  obtain ⟨⟨n1, n2, n3, _, _⟩, ⟨n6, n7, _, _⟩, ⟨n10, _, _⟩, _⟩ := nd
+  refine ⟨q, v, l, o, cs, ⟨d1, d2, d3, d4, d5, d6, n1, n2, n3, n6, n7, n10⟩, fun x hx => ?_⟩
+  simp only [List.mem_cons, List.mem_nil_iff, or_false] at hx
+  rcases hx with h1 | h1 | h1 <;> subst h1
+  · exact ⟨x1.1, x1.2.1, x1.2.2.1, x1.2.2.2.1⟩
+  · exact ⟨x2.1, x2.2.1, x2.2.2.1, x2.2.2.2.1⟩
+  · exact ⟨x3.1, x3.2.1, x3.2.2.1, x3.2.2.2.1⟩
+
+/-- a write into one of the CQM's own constraint cells (`mark_discrete`, `set_weight`, an edit through a `ConstraintView`) is an in-place
+    edit of the CQM -/
+theorem msep_store_constraint {h : Heap} {d m : Nat} (s : MSep h d m) {c : Nat} (hc : c ∈ constraintsOf h (cppOf h d))
+    (f : List Rat → List Rat) :
+    MSep (store h c (.coeffs (f (coeffsAt h c)))) d m ∧ obs (store h c (.coeffs (f (coeffsAt h c)))) m = obs h m := by
+  obtain ⟨k, hk⟩ := List.mem_iff_getElem?.mp hc
+  have e : (CEdit.constraint k f).run h d = store h c (.coeffs (f (coeffsAt h c))) := by simp [CEdit.run, hk]
+  rw [← e]
+  exact msep_cedit s _
+
+/-- **`add_discrete(model | comparison, copy=True, check_overlaps=…)` end to end**: whatever `check_overlaps` is, the caller's model reads as
+    before, the pair stays separate, and any later history of in-place edits on either side is invisible on the other -/
+theorem addDiscrete_then_histories {h : Heap} {d m : Nat} (s : MSep h d m) (co : Bool) (remap mark : List Rat → List Rat) (m' : Merge)
+    (lab : List Nat → List Nat) (es : List Edit) (ces : List CEdit) :
+    MSep (addDiscreteFromComparison h d m true co remap mark m' lab).1 d m ∧
+    obs (addDiscreteFromComparison h d m true co remap mark m' lab).1 m = obs h m ∧
+    cobs (es.foldl (fun acc e => e.run acc m) (addDiscreteFromComparison h d m true co remap mark m' lab).1) d =
+      cobs (addDiscreteFromComparison h d m true co remap mark m' lab).1 d ∧
+    obs (ces.foldl (fun acc e => e.run acc d) (addDiscreteFromComparison h d m true co remap mark m' lab).1) m = obs h m := by
+  obtain ⟨q, v, l, o, cs, hshape, hd4⟩ := msep_shape s
+  obtain ⟨hg, hm, x1, x2, x3⟩ := s
+  obtain ⟨g', b', o', dis'⟩ := cyAdd_copy_separate hg hm ⟨x1, x2, x3⟩ remap m' lab
+  obtain ⟨r2, _, r3, _, _⟩ := cyAdd_spec hm hshape hd4 true remap m' lab
+  have hmem : (cyAddConstraintFromModel h d m true remap m' lab).2 ∈
+      constraintsOf (cyAddConstraintFromModel h d m true remap m' lab).1 (cppOf (cyAddConstraintFromModel h d m true remap m' lab).1 d) := by
+    rw [r3, r2]; simp
+  obtain ⟨s', o''⟩ := msep_store_constraint ⟨g', b', dis'⟩ hmem mark
+  have hrun : (addDiscreteFromComparison h d m true co remap mark m' lab).1 =
+      store (cyAddConstraintFromModel h d m true remap m' lab).1 (cyAddConstraintFromModel h d m true remap m' lab).2
+        (.coeffs (mark (coeffsAt (cyAddConstraintFromModel h d m true remap m' lab).1 (cyAddConstraintFromModel h d m true remap m' lab).2))) := rfl
+  rw [hrun]
+  obtain ⟨h1, h2⟩ := msep_histories s' es ces
+  exact ⟨s', o''.trans o', h1, h2.trans (o''.trans o')⟩
+
+
 end MHeap
